@@ -288,7 +288,10 @@ class ClockDomainCrossing(LiteXModule, DUID):
 
             # Add Asynchronous FIFO
             cdc = AsyncFIFO(layout, depth, buffered=buffered)
-            cdc = ClockDomainsRenamer({"write": cd_from, "read": cd_to})(cdc)
+            # Renames are applied one after the other: go through private names so that a user domain
+            # called "read" or "write" is not renamed a second time (whole FIFO in one domain).
+            cdc = ClockDomainsRenamer({"write": "cdc_write_", "read": "cdc_read_"})(cdc)
+            cdc = ClockDomainsRenamer({"cdc_write_": cd_from, "cdc_read_": cd_to})(cdc)
             self.submodules += cdc
 
             # Sink -> AsyncFIFO -> Source.
